@@ -314,6 +314,10 @@ def run_make_batch(chk, tmp, n_random, exhaustive_n=None):
 
 
 # ---------------------------------------------------------------------------------------------
+class NoProgress(Exception):
+    pass
+
+
 ACCOUNTS = ["acctA", "acctB", "acctC"]
 PARTITIONS = [None, "debug", "short"]
 
@@ -470,7 +474,19 @@ def run_round_impl(sc, tmp):
         err = None
         try:
             hs = HpcSubmitter(cfg, cfg_file, cluster, out)
+            # watchdog only: the while loop of _submit_batches does not terminate when a _make_batch call makes
+            # no progress; every call that is given candidates must consume one, so > 2n+5 calls = no progress
+            real_make_batch, calls = hs._make_batch, [0]
+
+            def counted_make_batch(*a, **kw):
+                calls[0] += 1
+                if calls[0] > 2 * len(sc["jobs"]) + 5:
+                    raise NoProgress("_submit_batches keeps calling _make_batch without consuming candidates")
+                return real_make_batch(*a, **kw)
+            hs._make_batch = counted_make_batch
             hs.run()
+        except NoProgress as e:
+            err = "NoProgress: " + str(e)
         except AssertionError as e:
             err = "AssertionError: " + str(e)[:100]
         except Exception as e:
@@ -612,7 +628,10 @@ def round_oracle(sc, obs):
                    60 * jmap[n]["est"] <= jadeenv.group_limit_seconds(gmap[jmap[n]["group"]]) for n in left)
         if left and fits:
             probs.append(("not-maximal", f"free slots left but unblocked jobs {left} were not placed"))
-    if obs["error"]:
+    if obs["error"] and obs["error"].startswith("NoProgress"):
+        probs.append(("round-no-termination", "the batch loop of the round does not terminate although every estimate fits "
+                      "its group's wall time"))
+    elif obs["error"]:
         probs.append(("round-exception", "submitter round raised " + obs["error"]))
     return probs
 
